@@ -11,7 +11,7 @@ RULE = (
     "gap inside or outside the central region, zero-weight bins, null-coverage bins at both edges and in the "
     "interior, a few extreme outliers, duplicate gene names, Antitarget / ignored names, level plans with 0..3 "
     "steps and seeded noise) and a configuration (method none / haar / hmm / hmm-tumor / hmm-germline; skip_low; "
-    "skip_outliers 0/5/10; min_weight 0/0.3; processes 1/2/3/16). Oracle: survivors are recomputed with the "
+    "skip_outliers 0/2/5/10; min_weight 0/0.3; processes 1/2/3/16). Oracle: survivors are recomputed with the "
     "package's documented filters per arm (none, haar) or per table (HMM); then per chromosome: segments sorted, "
     "positive length, disjoint, inside the input span, every survivor in exactly one segment, probes = survivors "
     "inside, arm ends stretched to the first/last input bin (none, haar), weight = sum and depth = weighted mean "
@@ -57,7 +57,7 @@ def strategy(draw):
             "outliers": draw(st.integers(0, 3)),
         })
     return {"chroms": chroms, "seed": draw(st.integers(0, 2 ** 31)), "sd": draw(st.sampled_from([0.02, 0.1, 0.3])),
-            "method": draw(st.sampled_from(METHODS)), "skip_low": draw(st.booleans()), "skip_outliers": draw(st.sampled_from([0, 5, 10, 10])),
+            "method": draw(st.sampled_from(METHODS)), "skip_low": draw(st.booleans()), "skip_outliers": draw(st.sampled_from([0, 2, 5, 10, 10])),
             "min_weight": draw(st.sampled_from([0, 0, 0.3])), "processes": draw(st.sampled_from([1, 1, 1, 2, 3, 16])),
             "all_null_chrom": draw(st.integers(0, 9)) == 0}
 
